@@ -134,7 +134,7 @@ def run_check(repo, chk: Check, tier, prefix):
             if o.meta.get("path_infeasible"):
                 vac += 1  # the whole path is infeasible under the full path condition: vacuous instance
                 continue
-            r, t, inf = discharge(o, timeout_ms=10000)
+            r, t, inf = discharge(o, timeout_ms=30000)
             ms += t
             spent += t
             if r == "discharged":
